@@ -43,6 +43,9 @@ CHECKS = {
  "C18": dict(level="exploration", technique="execute-the-completion monitor (recording alias observes the argv of the spliced line) + exception/hang/reconstruction monitor on the command-line analyser",
    text="Adversarial names (one special character class per name: blanks, tabs, newlines, both quotes, backslashes, every shell metacharacter, leading -/~/#/$, keywords, non-ASCII) as file and as directory, each alone in a scratch directory; for 5 typed prefixes x 8 opening-quote styles the real Completer (path completer only) is asked and every completion offered is spliced in and executed; ~175 000 analyser calls on fuzz texts at every cursor position check no exception, no hang and prefix/suffix reconstruction.",
    note="p-string completions of directories may omit the trailing separator (Path semantics); prefixes are restricted to text a user can have typed; reconstruction is not demanded across backslash-newlines or for a cursor strictly inside a run of quote characters.", ref="§2 C18"),
+ "C08": dict(level="exploration", technique="reference-model monitor (10-line POSIX $PATH search, cross-checked with shutil.which) over every lookup view after each step of generated file-system / $PATH histories",
+   text="Layouts with symlinked, missing, duplicate, relative and empty $PATH entries, non-executable shadows, directories, FIFOs and broken links named like commands; after each of create/delete/rename/chmod/replace-by-dir/$PATH edit/cd operations all names are looked up through locate_executable, CommandsCache.locate_binary, `in`, all_commands, explicit-path forms and (sampled) by spawning the bare name and reading which script ran; ~200 000 comparisons per quick run.",
+   note="Capabilities are dropped so execute bits apply; directory mtimes are advanced explicitly; queries on which the POSIX model and shutil.which disagree are inconclusive; staleness is attributed (never decided) by comparing the cache's per-directory listings with the file system.", ref="§2 C08"),
 }
 NOT_BUILT = "check not built yet in this session (planned, see DESIGN.md §2); nothing is claimed for it"
 def main():
